@@ -76,6 +76,8 @@ type Sched struct {
 	// Deadlock is set when every unfinished worker is blocked in a sync primitive.
 	Deadlock string
 	Stalled  string
+	Slow     bool   // a released worker ran longer than StallFor without yielding
+	OnSlow   func() // called each time that is noticed
 }
 
 func New(n int) *Sched {
@@ -133,8 +135,13 @@ func (s *Sched) wait(n int) bool {
 				}
 			}
 			if nb == 0 {
-				s.Stalled = "released workers neither parked nor finished and are not blocked in a sync primitive\n" + dump
-				return false
+				// still running (a native working on a huge value): slow, not stuck. Keep waiting; the
+				// case is marked slow and not judged, and the process watchdog is the backstop.
+				s.Slow = true
+				if s.OnSlow != nil {
+					s.OnSlow()
+				}
+				continue
 			}
 			n -= nb
 		}
